@@ -334,6 +334,22 @@ def run(ctx):
                            "VendorOperation is constructed outside its checked constructor, in " + f["path"], cfg=cfg, where=H.line(c))
         n = check_dispatch(ctx, F, cfg, spec)
         ctx.floor("dispatch result sites", n, 3, cfg=cfg)
+        if ctx.tier == "thorough":
+            # second, independent reading of the same table (result sites with dominating literals, rules/tables.site_table):
+            # where that older extractor can read the function, it must agree byte for byte with the path-summary table
+            try:
+                A2, rows2 = T.site_table(dfn, F)
+                alt = {}
+                for r2 in rows2:
+                    for b in r2["vals"]:
+                        k2, c2 = T.result_value(H.strip_block(r2["res"]), F) if r2["kind"] == "ok" else (None, None)
+                        alt[b] = "reject" if r2["kind"] == "err" else (c2 or "?").split("::")[-1]
+                mine = {b: ("reject" if v[0] == "reject" else "Vendor" if v[0] == "vendor" else v[1]) for b, v in dec.items()}
+                diff = [b for b in range(256) if b in alt and alt[b] != mine[b]]
+                ctx.extra.setdefault("cross_check_site_table", {})[cfg] = {"bytes_compared": len(alt), "disagreements": ["0x%02x" % b for b in diff]}
+                ctx.oblige("C11|cross-check|site-table", not diff, "two independent extractions of the byte table disagree on %s" % ["0x%02x: %s vs %s" % (b, alt[b], mine[b]) for b in diff][:4], cfg=cfg, nontrivial=False)
+            except (T.Unreadable, Exception) as e:
+                ctx.extra.setdefault("cross_check_site_table", {})[cfg] = {"unreadable_by_the_older_extractor": str(e)[:120]}
         ctx.floor("Operation variants", len(adt["variants"]), 14, cfg=cfg)
         ctx.floor("recognised bytes", len(recognised), 75, cfg=cfg)
         if cfg == "k0":
